@@ -1129,9 +1129,10 @@ class DAGExecution(BaseDAGExecution[P, RVDAG]):
         """
         self._pre_call()
 
-        # 2. Execute the scheduler
+        # 2. Execute the scheduler on a copy of the graph: the scheduler consumes the graph it is given
+        #  and a run that raised must not leave a partially consumed graph behind
         self.xn_dict, self.results, self.profiles = self.dag.run_subgraph(
-            self.graph, self.results, *args
+            deepcopy(self.graph), self.results, *args
         )
 
         return self._post_call()
@@ -1164,9 +1165,10 @@ class AsyncDAGExecution(BaseDAGExecution[P, RVDAG]):
         """
         self._pre_call()
 
-        # 2. Execute the scheduler
+        # 2. Execute the scheduler on a copy of the graph: the scheduler consumes the graph it is given
+        #  and a run that raised must not leave a partially consumed graph behind
         self.xn_dict, self.results, self.profiles = await self.dag.run_subgraph(
-            self.graph, self.results, *args
+            deepcopy(self.graph), self.results, *args
         )
 
         return self._post_call()
